@@ -47,6 +47,7 @@ func optionSet(r *rng.R) gobuild.Options {
 		o.NoZap = r.Bool()
 		o.EnumStrict = r.Bool()
 	}
+	o.NoEmbedIDL = r.Chance(1, 4) // independent of the rest: the IDL is left out of the generated package
 	return o
 }
 
@@ -96,6 +97,9 @@ func (c *checker) makeProgram(seed uint64, cfg func(r *rng.R) progs.Config, opt 
 	b := &built{seed: seed}
 	b.opts = opt(r)
 	b.prog = progs.Generate(r, cfg(r))
+	if b.opts.NonStrict {
+		progs.MakeNonStrict(r, b.prog)
+	}
 	b.prog.Seed = seed
 	b.schema = b.prog.Schema()
 	return b
